@@ -225,6 +225,18 @@ func (fx *Fx) conversion(st *State, v Val, t types.Type, n ast.Node) Val {
 		c.declareFun("str_of_rune", []string{"Int"}, "Str")
 		return Val{T: fmt.Sprintf("(str_of_rune %s)", v.T), S: "Str", GT: t}
 	}
+	if s1, _, p1 := structOf(v.GT); s1 != nil && !p1 {
+		if s2, _, p2 := structOf(t); s2 != nil && !p2 && s1.NumFields() == s2.NumFields() {
+			if s2.NumFields() == 0 {
+				return Val{T: "mk_" + ts, S: ts, GT: t}
+			}
+			var fs []string
+			for i := 0; i < s1.NumFields(); i++ {
+				fs = append(fs, fmt.Sprintf("(%s__%s %s)", v.S, s1.Field(i).Name(), v.T))
+			}
+			return Val{T: "(mk_" + ts + " " + strings.Join(fs, " ") + ")", S: ts, GT: t}
+		}
+	}
 	fx.unsup(n, "conversion %s -> %s", v.S, ts)
 	return Val{}
 }
@@ -479,7 +491,7 @@ func (fx *Fx) callFuncValue(st *State, call *ast.CallExpr, preArgs []Val) []Val 
 	st.logEvent(evTerm("Call", "(fn_code "+fv.T+")", a0, a1, ""))
 	// effects: those of any literal with the same signature
 	ms := newModSet()
-	fx.w.callMods(fx.pkg, c, call, ms, map[string]bool{})
+	fx.w.callMods(fx.pkg, c, call, ms, nil)
 	fx.havocMods(st, ms)
 	// contract attached to the func-typed parameter / variable?  (spec: "fnparam <name>")
 	var out []Val
@@ -651,7 +663,7 @@ func (fx *Fx) applyCall(st *State, fn *types.Func, recv *Val, args []Val, call *
 	}
 	pre := st.clone()
 	// frame
-	ms := fx.w.modsOfFunc(key, c, map[string]bool{})
+	ms := fx.w.modsOfFunc(key, c, nil)
 	if len(sp.EmitsC) > 0 || sp.Flags["emits"] == "none" {
 		// explicit event list
 		m2 := *ms
@@ -733,7 +745,7 @@ func (fx *Fx) defaultCall(st *State, fn *types.Func, key string, recv *Val, args
 	}
 	// interface method without contract: union of the implementations' frames (mods.go)
 	ms := newModSet()
-	fx.w.callMods(fx.pkg, c, call, ms, map[string]bool{})
+	fx.w.callMods(fx.pkg, c, call, ms, nil)
 	if _, inRepo := fx.w.Funcs[key]; inRepo {
 		nilI := "(mkIface 0 0)"
 		a0, a1 := nilI, nilI
